@@ -28,6 +28,7 @@ RULES = {
     "C03.MARK": "child's final result => finishing mark on the same child before the iteration ends",
     "C03.STOP": "no child poll reachable after the deciding child's result in the same call",
     "C03.LATCH": "a body that guards against being polled after its final result (assert on done/consumed/completed) evaluates that guard before any child poll",
+    "C03.WAIT": "wait_until: the deadline is never polled again after it returned Ready; the inner value is not polled before (typestate run shared with C19)",
     "C03.SRC": "FromStream::drive: no iter.next() after the source returned None; flush is reached",
     "C03.PRED": "PollState predicates/setters mean what their names say",
 }
@@ -60,6 +61,10 @@ def run(ctx):
             rule_stop(ctx, u)
             rule_latch(ctx, u)
         rule_maybe_done(ctx, M)
+        from . import c19
+        with ctx.renamed({"C19.*": "C03.WAIT"}):
+            for kind, adt, ext_trait, tr, meth in c19.TARGETS:
+                c19.check_one(ctx, M, kind, adt, ext_trait, tr, meth)
         if cfg != "core":
             rule_src(ctx, M)
         prims.check_pollstate(ctx, M, "C03.PRED")
